@@ -255,9 +255,14 @@ def walk_violations(view, mt, linked=None):
 
 def case_C04(seed):
     rnd = _rnd(seed, 'C04')
-    case = U.gen_case(rnd, laps=rnd.random() < 0.15)
+    if seed % 8 == 5:
+        case = U.gen_merge_linked_case(random.Random(seed))
+        linked = case['linked']
+    else:
+        case = U.gen_case(rnd, laps=rnd.random() < 0.15)
+        linked = U.gen_linked(case)
     U.quiet()
-    mp = U.make_map(case['graph'])
+    mp = U.make_map(case['graph'], linked=linked)
     mt = U.make_matcher(mp, case['cfg'], case.get('warmup'))
     view = O.View(graph=case['graph'])
     ops = gen_history(rnd, case, allow_cwd=False)
@@ -278,18 +283,19 @@ def case_C04(seed):
         done.append(op)
         if res is None or res == 'skipped':
             continue
-        bad = walk_violations(view, mt)
+        bad = walk_violations(view, mt, linked)
         # the returned state list (collapsed when uniqueness was requested) is a walk as well
         st_ = list(res[0] or [])
         for j in range(1, len(st_)):
-            if not O.is_move(view, st_[j - 1], st_[j]):
+            if not O.is_move(view, st_[j - 1], st_[j], linked):
                 bad.append(f"returned list (unique={unique}) step #{j}: the map does not offer the move {st_[j-1]} -> {st_[j]}")
                 break
         if mt.lattice_best and len(set(m.shortkey for m in mt.lattice_best)) >= 2:
             nt = True
         if bad:
             viol.append(('C04:' + bad[0].split(' ')[0] + '-' + bad[0].split(':')[-1].strip()[:30].split(' ')[0], f"after {done}: " + ' | '.join(bad[:3]),
-                         {'case': U.case_repr(case), 'ops': done, 'path': [str(m.shortkey) for m in mt.lattice_best], 'failed': bad[:5]}))
+                         {'case': U.case_repr(case), 'linked_edges': {str(k): sorted(map(str, v)) for k, v in (linked or {}).items()},
+                          'ops': done, 'path': [str(m.shortkey) for m in mt.lattice_best], 'failed': bad[:5]}))
             break
     return {'nontrivial': nt, 'violations': viol, 'sample': {'case': U.case_repr(case), 'ops': ops}}
 
@@ -355,10 +361,23 @@ def case_C06(seed):
                       only_edges=rnd.choice([False, False, True]))
     U.quiet()
     out = {}
+    # "matching" includes matching in successive extensions (same cut points on both sides)
+    ntr = len(case['trace'])
+    cuts = sorted(set(rnd.randint(1, ntr - 1) for _ in range(rnd.randint(1, 2)))) if (ntr > 1 and seed % 3 == 0) else []
     for ne in (False, True):
         c = copy.deepcopy(case)
         c['cfg']['non_emitting_states'] = ne
-        mp, mt, res = run_match(c)
+        if cuts:
+            mp = U.make_map(c['graph'])
+            mt = U.make_matcher(mp, c['cfg'], c.get('warmup'))
+            try:
+                res = mt.match(c['trace'][:cuts[0]])
+                for k_ in cuts[1:] + [ntr]:
+                    res = mt.match(c['trace'][:k_], expand=True)
+            except Exception:
+                return {'nontrivial': False, 'violations': [], 'sample': U.case_repr(case)}      # totality is C17's business
+        else:
+            mp, mt, res = run_match(c)
         out[ne] = U.canon(mt, res)
         out[ne]['used_ne'] = any(m.obs_ne for m in (mt.lattice_best or []))
     viol = []
@@ -366,10 +385,10 @@ def case_C06(seed):
     off, on = out[False], out[True]
     if on['idx'] < off['idx'] or (off['states'] and not on['states']):
         viol.append(('C06:matched-prefix-shortened', f"non-emitting states off: idx {off['idx']}; on: idx {on['idx']}",
-                     {'case': U.case_repr(case), 'off': off, 'on': on}))
+                     {'case': U.case_repr(case), 'extensions_at': cuts, 'off': off, 'on': on}))
     elif off['states'] and on['states'] and off['idx'] == n - 1 and on['idx'] == n - 1 and on['best'] < off['best'] - 1e-9 * (1 + abs(off['best'])):
-        viol.append(('C06:best-probability-lowered', f"whole trace matched both ways, best log-probability off {off['best']} > on {on['best']}",
-                     {'case': U.case_repr(case), 'off': off, 'on': on}))
+        viol.append(('C06:best-probability-lowered', f"whole trace matched both ways{' (extended at ' + str(cuts) + ')' if cuts else ''}, best log-probability off {off['best']} > on {on['best']}",
+                     {'case': U.case_repr(case), 'extensions_at': cuts, 'off': off, 'on': on}))
     return {'nontrivial': on['used_ne'] or on['idx'] != off['idx'], 'violations': viol, 'sample': U.case_repr(case)}
 
 
